@@ -889,4 +889,8 @@ THEOREMS = THEOREMS + ["OdxVerif.Codec." + t for t in [
     "C05_no_invention_all", "C05_truncated_rejected_all", "C05_requests_dichotomy",
     "C05_no_invention_site", "C05_truncated_rejected_log_site", "C05_probe_requests_are_exempt",
     "erases_decode_all", "lgood_decode_all", "c5Req_log", "c5Req_log_ok", "c5Req_ok", "c5Jump_log", "c5Probe_log", "c5Probe_ok",
-    "C05_log_grows_site", "grows_decode_all", "c5Bs_log", "c5Bs_jump", "c5Mm_short", "c5Mm_ok", "c5Ld_log", "c5Mr_log", "c5Em_log"]]
+    "C05_log_grows_site", "grows_decode_all", "c5Bs_log", "c5Bs_jump", "c5Mm_short", "c5Mm_ok", "c5Ld_log", "c5Mr_log", "c5Em_log",
+    "C05_request_local", "extractCore_local", "C05_truncated_param_described2", "C05_truncated_minmax_described2",
+    "C05_truncated_leading_described2", "C05_truncated_matching_described2", "C05_truncated_reserved_described2",
+    "C05_truncated_minmax_described2_example", "C05_truncated_matching_described2_example",
+    "C05_truncated_leading_described2_example", "C05_truncated_reserved_described2_example"]]
